@@ -44,14 +44,21 @@ def build_chain(spec, chrom, kinds, tip_start=False, tip_end=False, naming=0, ex
     c = chrom[-1]
     cnt = {"r": 0, "a": 0}
 
+    base = (int(c) - 1) * 100 if c.isdigit() else 900
+
     def rname():
         cnt["r"] += 1
         k = cnt["r"]
+        if naming == 4:
+            # purely numeric segment ids counted from 0, as vg and many assemblers write them
+            return str(base + cnt["r"] + cnt["a"] - 1)
         return "%ss%02d" % (c, k if naming == 0 else 50 - k)
 
     def aname():
         cnt["a"] += 1
         k = cnt["a"]
+        if naming == 4:
+            return str(base + cnt["r"] + cnt["a"] - 1)
         return "%sx%02d" % (c, k if naming != 2 else 50 - k) if naming < 3 else "%sa%02d" % (c, k)
 
     refpos = [0]
